@@ -480,10 +480,39 @@ def rule_grad2(repo, tier):
         for c in ast.walk(f.node):
             if isinstance(c, ast.Call) and (dotted(c.func) or '').split('.')[-1] == 'grad' and c.args:
                 used = {x.id for x in ast.walk(c.args[0]) if isinstance(x, ast.Name)} & set(first)
+                via = None
+                if not used:
+                    # grad(s1, x) with s1 = g1.sum(): one level of local names
+                    for nm in {x.id for x in ast.walk(c.args[0]) if isinstance(x, ast.Name)}:
+                        for a in ast.walk(f.node):
+                            if isinstance(a, ast.Assign) and len(a.targets) == 1 and isinstance(a.targets[0], ast.Name) and a.targets[0].id == nm:
+                                u2 = {x.id for x in ast.walk(a.value) if isinstance(x, ast.Name)} & set(first)
+                                if u2:
+                                    used, via = u2, (nm, a)
                 if not used:
                     continue
                 n += 1
                 g = sorted(used)[0]
+                # everything from the first derivative to the second runs with grad ENABLED: optimizers call the correctors under no_grad, and
+                # an op executed outside enable_grad (g1.sum()) carries no graph there - rho'' silently becomes zero
+                def in_enable_grad(node):
+                    if any('enable_grad' in (dotted(d.func if isinstance(d, ast.Call) else d) or '') for d in f.node.decorator_list):
+                        return True
+                    cur_ = node
+                    while id(cur_) in parents:
+                        cur_ = parents[id(cur_)]
+                        if isinstance(cur_, ast.With) and any('enable_grad' in src(it.context_expr) for it in cur_.items):
+                            return True
+                    return False
+                chain = [first[g], c] + ([via[1]] if via else [])
+                outside = [x for x in chain if not in_enable_grad(x)]
+                res.inst({'function': f.fq, 'derivative chain under enable_grad': not outside}, (f.fq, 'scope', src(c)))
+                for x in outside:
+                    res.add(Finding('C09.GRAD2', f, '`%s` belongs to the chain rho\' -> rho\'\' but is executed outside torch.enable_grad(): GN / LM call the corrector '
+                                    'under no_grad, where it produces no graph, so the second derivative is silently taken as zero and Triggs degrades to '
+                                    'FastTriggs' % src(x)[:60], node=x, construct='outside enable_grad|' + norm_construct(x, f.node)))
+                if via:
+                    g = via[0] if False else g
                 # guarded: an enclosing If / IfExp whose test reads <g>.requires_grad (or grad_fn)
                 ok = False
                 cur = c
@@ -492,7 +521,8 @@ def rule_grad2(repo, tier):
                     if isinstance(par, (ast.If, ast.IfExp)) and cur is not par.test:
                         tnames = {dotted(x) for x in ast.walk(par.test) if isinstance(x, ast.Attribute)}
                         positive = (isinstance(par, ast.IfExp) and cur is par.body) or (isinstance(par, ast.If) and any(cur is s_ or any(cur is y for y in ast.walk(s_)) for s_ in par.body))
-                        if ({g + '.requires_grad', g + '.grad_fn'} & tnames) and positive and not (isinstance(par.test, ast.UnaryOp) and isinstance(par.test.op, ast.Not)):
+                        gnames = {g} | ({via[0]} if via else set())
+                        if ({x + sfx for x in gnames for sfx in ('.requires_grad', '.grad_fn')} & tnames) and positive and not (isinstance(par.test, ast.UnaryOp) and isinstance(par.test.op, ast.Not)):
                             ok = True
                     cur = par
                 res.inst({'function': f.fq, 'second-order grad': src(c)[:50], 'of': g, 'under a requires_grad test': ok}, (f.fq, src(c)))
@@ -502,6 +532,46 @@ def rule_grad2(repo, tier):
                                     % (src(c)[:50], g, g), node=c))
     if n == 0:
         raise AnalysisError('C09.GRAD2: no second-order grad call found in the correctors')
+    return res
+
+
+@guarded
+def rule_xdef(repo, tier):
+    """Both correctors evaluate the kernel at the SAME quantity, the squared norm of each residual block over the last (residual) dimension,
+    x = R.square().sum(-1, keepdim=True), for every rank of R: the optimizer documents the last dimension as the residual dimension and the loss
+    sums kernel(|R_i|^2) accordingly.  The two definitions are compared after inlining; a rank test or another reduction in one of them makes
+    that corrector's J'^T R' the gradient of a different loss than the one reported."""
+    res = RuleResult('C09.XDEF', 'FastTriggs and Triggs evaluate the kernel at the same expression of R: the squared norm over the last dimension with '
+                     'keepdim, unconditionally', floor=2)
+    from ..expr import inline_straight
+    defs = {}
+    for q in ('FastTriggs.forward', 'Triggs.compute_grads'):
+        f = repo.func('pypose.optim.corrector', q)
+        cands = []
+        for n in ast.walk(f.node):
+            if isinstance(n, ast.Assign) and len(n.targets) == 1 and isinstance(n.targets[0], ast.Name):
+                v = n.value
+                if any(isinstance(c, ast.Call) and isinstance(c.func, ast.Attribute) and c.func.attr in ('square', 'pow', 'norm') for c in ast.walk(v)) or \
+                        any(isinstance(c, ast.BinOp) and isinstance(c.op, ast.Pow) for c in ast.walk(v)):
+                    cands.append(v)
+        if not cands:
+            raise AnalysisError('C09.XDEF: the squared-norm definition of %s was not found' % q)
+        v = cands[0]
+        # strip the autograd bookkeeping
+        while isinstance(v, ast.Call) and isinstance(v.func, ast.Attribute) and v.func.attr in ('requires_grad_', 'detach', 'clone'):
+            v = v.func.value
+        defs[q] = (f, v)
+        cond = isinstance(v, ast.IfExp) or any(isinstance(x, ast.IfExp) for x in ast.walk(v))
+        canon = isinstance(v, ast.Call) and isinstance(v.func, ast.Attribute) and v.func.attr == 'sum' and [src(a) for a in v.args] == ['-1'] and \
+            any(k.arg == 'keepdim' and isinstance(k.value, ast.Constant) and k.value.value is True for k in v.keywords) and \
+            isinstance(v.func.value, ast.Call) and isinstance(v.func.value.func, ast.Attribute) and v.func.value.func.attr == 'square'
+        res.inst({'function': f.fq, 'x': src(v)[:70], 'unconditional squared norm over the last dimension': canon and not cond}, f.fq)
+        if cond:
+            res.add(Finding('C09.XDEF', f, '`%s` chooses the evaluation point of the kernel by a test on the residual: one corrector then treats a residual of '
+                            'that rank as other blocks than the loss and the sibling corrector do' % src(v)[:70], node=v, construct='xdef conditional'))
+        elif not canon:
+            res.add(Finding('C09.XDEF', f, '`%s` is not the squared norm over the last dimension (R.square().sum(-1, keepdim=True))' % src(v)[:70], node=v,
+                            construct='xdef form'))
     return res
 
 
@@ -700,7 +770,7 @@ def rule_sing(repo, tier):
 def _rules_core(repo, tier):
     return [rule_guard(repo, tier), rule_kind(repo, tier)] + rule_masks(repo, 'C09.MP', 'C09.GD', [(KER, 'Huber.forward')], floor=1) + \
         [rule_unit(repo, tier), rule_sel_axis(repo, tier), rule_contr(repo, tier), rule_sing(repo, tier), rule_grad2(repo, tier), rule_div(repo, tier),
-         rule_pure9(repo, tier)]
+         rule_pure9(repo, tier), rule_xdef(repo, tier)]
 
 
 def rules(repo, tier):
